@@ -50,6 +50,8 @@ class Scheduler:
         self.deadlock = None
         self.max_points = max_points
         self.points = 0
+        self.baton_timeout = 30.0
+        self.harness_failure = None
         self.timeouts = 0
         self.preemptions = 0
         main = Part(0, "main")
@@ -244,7 +246,12 @@ class Scheduler:
         self.cur = nxt
         nxt.sem.release()
         if me.state != "done":
-            me.sem.acquire()
+            if not me.sem.acquire(timeout=self.baton_timeout):
+                # nobody handed the baton back: a participant died without passing it on (harness trouble, not a finding)
+                self.end_reason = "lost-baton"
+                self.harness_failure = f"baton lost while {me.name} waited at {label}"
+                self._abort_all(me)
+                return
             if self.aborting:
                 raise SchedulerAbort()
 
@@ -263,6 +270,8 @@ class Scheduler:
             return
         except BaseException as ex:  # noqa
             part.exc = ex
+            if type(ex).__name__ == "HarnessError":
+                self.harness_failure = f"{part.name}: {ex}"
         finally:
             if self.line_trace:
                 sys.settrace(None)
